@@ -207,15 +207,16 @@ func genDepItems(r *rng.R, u *universe, depth int, n int, inGroup bool) []string
 			out = append(out, r.Pick(flags)+"? ( "+sub(1, 3, false)+" )")
 		case k < 92:
 			out = append(out, "!"+r.Pick(flags)+"? ( "+sub(1, 2, false)+" )")
-		case k < 95:
+		case k < 94:
 			out = append(out, "( "+sub(1, 3, false)+" )")
-		case k < 97:
+		case k < 96:
 			out = append(out, "^^ ( "+sub(1, 3, true)+" )")
-		case k < 99:
+		case k < 97:
 			out = append(out, "?? ( "+sub(1, 3, true)+" )")
 		default:
 			if u.chaos > 0 {
-				out = append(out, r.Pick([]string{"|| ( )", "( )"}))
+				out = append(out, r.Pick([]string{"|| ( )", "( )", "^^ ( " + r.Pick(cats) + "/missing )", "|| ( " + r.Pick(cats) + "/nosuch )",
+					"^^ ( " + r.Pick(cats) + "/missing " + r.Pick(cats) + "/absent )"}))
 			} else {
 				out = append(out, genAtom(r, u, true, true))
 			}
@@ -224,9 +225,50 @@ func genDepItems(r *rng.R, u *universe, depth int, n int, inGroup bool) []string
 	return out
 }
 
+// traps: expressions that are inert under the right semantics and fatal (or visible) under a wrong one
+func genTrap(r *rng.R, u *universe, owner *gpkg) string {
+	missing := r.Pick(cats) + "/" + r.Pick([]string{"missing", "nosuch", "absent"})
+	on, off := []string{}, []string{}
+	for _, f := range flags {
+		if owner != nil && owner.use[f] {
+			on = append(on, f)
+		} else {
+			off = append(off, f)
+		}
+	}
+	off = append(off, "undeclared")
+	switch r.Intn(6) {
+	case 0, 1: // a conditional on a flag that is off
+		return r.Pick(off) + "? ( " + missing + " )"
+	case 2: // a negated conditional on a flag that is on
+		if len(on) > 0 {
+			return "!" + r.Pick(on) + "? ( " + missing + " )"
+		}
+		return r.Pick(off) + "? ( " + missing + " " + missing + " )"
+	case 3: // at-most-one-of nothing installed
+		return "?? ( " + missing + " )"
+	case 4: // any-of with one alternative installed
+		return "|| ( " + missing + " " + u.pkgs[r.Intn(len(u.pkgs))].pn() + " )"
+	default: // active conditionals around something installed
+		t := u.pkgs[r.Intn(len(u.pkgs))].pn()
+		if len(on) > 0 && r.Bool() {
+			return r.Pick(on) + "? ( " + t + " )"
+		}
+		return "!" + r.Pick(off) + "? ( " + t + " )"
+	}
+}
+
 func genDepString(r *rng.R, u *universe) string {
+	return genDepStringFor(r, u, nil)
+}
+
+func genDepStringFor(r *rng.R, u *universe, owner *gpkg) string {
 	n := r.Heavy(4)
-	s := strings.Join(genDepItems(r, u, 3, n, false), " ")
+	items := genDepItems(r, u, 3, n, false)
+	if owner != nil && r.Chance(1, 3) {
+		items = append(items, genTrap(r, u, owner))
+	}
+	s := strings.Join(items, " ")
 	if u.trouble(r, 0, 60, 12) { // an undecodable file (unknown token): the run has to fail, not crash
 		s += r.Pick([]string{" [bad", " a/b/c/?", " =x"})
 	}
@@ -281,13 +323,18 @@ func (p *gpkg) toIn(r *rng.R, u *universe) PkgIn {
 	return in
 }
 
-func (u *universe) fillDeps(r *rng.R, in *PkgIn) {
+func (u *universe) fillDeps(r *rng.R, in *PkgIn, owner *gpkg, nobdeps bool) {
 	for k := 0; k < 4; k++ {
-		pr := []int{2, 2, 1, 3}[k] // RDEPEND most often present
+		pr := []int{2, 2, 1, 2}[k] // RDEPEND most often present
 		if k == 2 || r.Chance(1, pr) {
 			in.HasDep[k] = true
-			in.Dep[k] = B(genDepString(r, u))
+			in.Dep[k] = B(genDepStringFor(r, u, owner))
 		}
+	}
+	if nobdeps && r.Chance(1, 2) { // build dependencies do not count with -nobdeps
+		k := r.Intn(2)
+		in.HasDep[k] = true
+		in.Dep[k] = B(strings.TrimSpace(string(in.Dep[k]) + " " + r.Pick(cats) + "/buildonly"))
 	}
 }
 
@@ -483,7 +530,7 @@ func genInput(r *rng.R, scenario int) Input {
 		in.Pkgs = append(in.Pkgs, p.toIn(r, u))
 	}
 	for i := range in.Pkgs {
-		u.fillDeps(r, &in.Pkgs[i])
+		u.fillDeps(r, &in.Pkgs[i], u.pkgs[i], in.NoBdeps)
 	}
 	if u.deep { // p[i] needs p[i+1], the last one needs the first
 		for i := range in.Pkgs {
